@@ -408,6 +408,9 @@ class TinyExec:
                 return TinyExec(self.repo, self.cls, self.path, self.depth + 1, self.stubs).call_function(self._modfunc(d), args, kwargs)
             if isinstance(n.func, ast.Attribute):
                 base0 = self.ev(n.func.value, env, so) if not isinstance(n.func.value, ast.Name) or n.func.value.id in env else None
+                if type(base0).__module__ == "numpy" and n.func.attr in ("any", "all", "sum", "max", "min", "copy", "ravel", "tolist", "astype", "flatten",
+                                                                         "nonzero", "argmax", "argmin", "mean", "reshape", "item", "fill", "round", "conj"):
+                    return getattr(base0, n.func.attr)(*args, **kwargs)
                 if isinstance(base0, Fake) and callable(getattr(base0, n.func.attr, None)):
                     return getattr(base0, n.func.attr)(*args, **kwargs)
                 if isinstance(base0, list) and n.func.attr in ("append", "extend", "index", "count", "pop", "insert", "remove", "copy"):
